@@ -24,6 +24,74 @@ def deepcopy(eng, st, v):
     return v
 
 
+def snapshot(st, v):
+    """deep snapshot of a dict/list structure (storages are immutable values: copy-on-write heap)"""
+    if isinstance(v, Opt):
+        return ("opt", v.none, snapshot(st, v.val))
+    if isinstance(v, Ref):
+        stor = st.get(v)
+        k = stor.get("__kind__")
+        if k == "dict":
+            return ("dict", v.oid, stor["open"], {kk: (p, snapshot(st, x)) for kk, (p, x) in stor["e"].items()})
+        if k in ("list", "tuple", "set"):
+            return (k, v.oid, tuple(snapshot(st, x) for x in stor["items"]))
+        if k == "glist":
+            return ("glist", v.oid, stor["len"], snapshot(st, stor["elem"]))
+        return ("ref", v)
+    return ("leaf", v)
+
+
+def unchanged(st, snap, v):
+    """z3 Bool: the structure reachable from v in st equals the snapshot, object by object (same objects, same entries, same leaves)"""
+    T, F = z3.BoolVal(True), z3.BoolVal(False)
+    tag = snap[0]
+    if tag == "opt":
+        return unchanged(st, snap[2], v.val) if isinstance(v, Opt) and z3.eq(v.none, snap[1]) else F
+    if tag == "leaf":
+        w = snap[1]
+        if isinstance(v, (Ref, Opt)):
+            return F
+        if w is None or v is None:
+            return z3.BoolVal(w is None and v is None)
+        if is_sym(w) and is_sym(v):
+            return z3.BoolVal(w.kind == v.kind) if w.kind != v.kind else (T if z3.eq(w.t, v.t) else w.t == v.t)
+        if is_sym(w) or is_sym(v):
+            try:
+                return ops.values_equal(st, w, v)
+            except Exception:  # noqa: BLE001
+                return F
+        return z3.BoolVal(type(w) is type(v) and w == v)
+    if tag == "ref":
+        return z3.BoolVal(isinstance(v, Ref) and v.oid == snap[1].oid)
+    if not isinstance(v, Ref) or v.oid != snap[1]:
+        return F
+    stor = st.get(v)
+    if tag == "dict":
+        e = stor["e"]
+        if stor.get("__kind__") != "dict" or set(e) != set(snap[3]):
+            # a key was added: fine only if it can never be present
+            extra = [p for kk, (p, _) in e.items() if kk not in snap[3]]
+            if stor.get("__kind__") != "dict" or any(kk not in e for kk in snap[3]):
+                return F
+            parts = [z3.Not(p) for p in extra]
+        else:
+            parts = []
+        for kk, (p0, s0) in snap[3].items():
+            p1, x1 = e[kk]
+            parts.append(z3.And(p1 == p0, z3.Implies(p0, unchanged(st, s0, x1))))
+        return z3.And(parts) if parts else T
+    if tag in ("list", "tuple", "set"):
+        items = stor.get("items", ())
+        if stor.get("__kind__") != tag or len(items) != len(snap[2]):
+            return F
+        return z3.And([unchanged(st, a, b) for a, b in zip(snap[2], items)]) if items else T
+    if tag == "glist":
+        if stor.get("__kind__") != "glist":
+            return F
+        return z3.And(stor["len"] == snap[2], unchanged(st, snap[3], stor["elem"]))
+    return F
+
+
 class CodecHooks(Hooks):
     def ext_call(self, eng, st, name, args, kwargs):
         if name == "copy.deepcopy":
